@@ -149,7 +149,7 @@ MISTAKES = [
     ('order-by-in-update', "update a1 = 'x' order by a1"), ('single-eq-in-where', "select a1 where a1 = 'x'"), ('non-integer-limit', 'select a1 limit x'),
     ('non-integer-limit-2', 'select a1 limit 1.5'), ('except-with-join', 'select * except a1 join b on a1 == b1'), ('unknown-attr', 'select a.nosuch'),
     ('unknown-except', 'select * except a.nosuch'), ('unknown-except-2', 'select * except zz'), ('unknown-update-field', "update a.nosuch = 'x'"),
-    ('not-assignable', "update zz = 'x'"), ('empty-select', 'select   where a1'), ('agg-in-expr', 'select MAX(int(a2)) + 1'), ('agg-in-expr-2', "select 'n=' + str(COUNT(*))"),
+    ('not-assignable', "update zz = 'x'"), ('empty-select', 'select   where a1'), ('agg-in-expr', 'select MAX(int(a2)) + 1'), ('agg-in-expr-2', "select 'n=' + str(COUNT(*))"), ('agg-attr', 'select MAX(a2).strip()'), ('agg-attr-2', 'select a1, MIN(a2).strip() group by a1'), ('agg-attr-3', 'select COUNT(*).real'),
     ('distinct-agg', 'select distinct SUM(int(a2))'), ('orderby-agg', 'select SUM(int(a2)) order by a1'), ('two-unnest', 'select UNNEST([1, 2]), UNNEST([3])'),
     ('syntax-1', 'select a1 +'), ('syntax-2', 'select (a1'), ('syntax-3', 'select a1 a2'), ('syntax-4', 'select a1 where a1 ==='), ('join-no-on', 'select a1 join b'),
     ('join-unknown-table', 'select a1 join nosuch on a1 == b1'), ('join-unknown-field', 'select a1 join b on a1 == c1'), ('join-unknown-field-2', 'select a1 join b on zz == b1'),
